@@ -20,6 +20,10 @@ inductive Admits : Ty → PV → PV → Prop
   | floatConv (n : Int) : Admits .float (.fltOfInt n) (.fltOfInt n)
   | floatInt (n : Int) : floatOverflow n = false → Admits .float (.int n) (.fltOfInt n)   -- integer → float
   | floatBool (b : Bool) : Admits .float (.bool b) (.fltOfInt (if b then 1 else 0))
+  | listAny (xs : List PV) : Admits .listAny (.list xs) (.list xs)          -- untyped: content not inspected
+  | tupleAnyL (xs : List PV) : Admits .tupleAny (.list xs) (.tuple xs)       -- list → tuple
+  | tupleAnyT (xs : List PV) : Admits .tupleAny (.tuple xs) (.tuple xs)
+  | dictAny (kvs : List (Str × PV)) : Admits .dictAny (.dict kvs) (.dict kvs)
   | str (s : Str) : Admits .str (.str s) (.str s)
   | bool (b : Bool) : Admits .bool (.bool b) (.bool b)
   | list {t : Ty} {xs ys : List PV} : AdmitsL t xs ys → Admits (.list t) (.list xs) (.list ys)
@@ -65,6 +69,9 @@ def headOk : Ty → PV → Bool
   | .float, j => match j with | .flt _ => true | .fltOfInt _ => true | .int n => !floatOverflow n | .bool _ => true | _ => false
   | .str, j => match j with | .str _ => true | _ => false
   | .bool, j => match j with | .bool _ => true | _ => false
+  | .listAny, j => match j with | .list _ => true | _ => false
+  | .tupleAny, j => match j with | .list _ => true | .tuple _ => true | _ => false
+  | .dictAny, j => match j with | .dict _ => true | _ => false
   | .list _, j => match j with | .list _ => true | _ => false
   | .tupleVar _, j => match j with | .list _ => true | .tuple _ => true | _ => false
   | .tupleFix ts, j => match j with | .list xs => xs.length == ts.length | .tuple xs => xs.length == ts.length | _ => false
